@@ -220,7 +220,7 @@ func structLitField(v ssa.Value, field string) ssa.Value {
 	}
 	for _, r := range *al.Referrers() {
 		fa, ok := r.(*ssa.FieldAddr)
-		if !ok || fa.Field >= st.NumFields() || st.Field(fa.Field).Name() != field {
+		if !ok || fa.Field >= st.NumFields() || fieldLabel(fa.X.Type(), fa.Field) != field {
 			continue
 		}
 		for _, rr := range *fa.Referrers() {
@@ -502,4 +502,44 @@ func straightToJump(b *ssa.BasicBlock) bool {
 		}
 	}
 	return true
+}
+
+// closeRejected expands "predicate helper returned false" facts by what all the helper's
+// rejecting alternatives share (a guard moved into a predicate, a switch over reserved values).
+func (p *Prog) closeRejected(fs FactSet, depth int) FactSet {
+	out := append(FactSet{}, fs...)
+	if depth <= 0 {
+		return out
+	}
+	for _, f := range fs {
+		t, pol := normFact(f.Cond, f.Pol)
+		if pol || t.Op != "call" {
+			continue
+		}
+		cv, ok := t.V.(*ssa.Call)
+		if !ok {
+			continue
+		}
+		callee := cv.Common().StaticCallee()
+		if callee == nil || !p.InRepo(callee) || callee.Blocks == nil {
+			continue
+		}
+		if t.Ctx != nil && t.Ctx.has(callee) {
+			continue
+		}
+		d := 0
+		if t.Ctx != nil {
+			d = t.Ctx.Depth + 1
+		}
+		alts := p.RejectDNF(callee, &Ctx{Parent: t.Ctx, Site: cv, Fn: callee, Depth: d}, 0, 1)
+		if len(alts) == 0 {
+			continue
+		}
+		for _, nf := range p.closeRejected(intersectFacts(alts), depth-1) {
+			if !out.has(nf) {
+				out = append(out, nf)
+			}
+		}
+	}
+	return out
 }
